@@ -685,13 +685,13 @@ func checkC17(p *Prog, r *Report) {
 		}
 	}
 	if f := p.Fn("NewCandidatePeerReflexive"); r.Anchor("NewCandidatePeerReflexive", f != nil) {
-		okV := false
-		walkBody(f, func(x ast.Node) bool {
-			if kv, ok := x.(*ast.KeyValueExpr); ok && p.keyIsField(kv.Key, "candidateBase.priorityOverride") && p.IsField(kv.Value, "CandidatePeerReflexiveConfig.Priority") {
-				okV = true
+		vals := p.FieldValues(f, "candidateBase.priorityOverride")
+		okV := len(vals) > 0
+		for _, v := range vals {
+			if !p.IsField(p.Deref(f, v), "CandidatePeerReflexiveConfig.Priority") {
+				okV = false
 			}
-			return true
-		})
+		}
 		r.Check(okV, "NewCandidatePeerReflexive keeps the configured priority", p.Pos(f.Body.Pos()), "priorityOverride: config.Priority", "the constructor does not store the configured priority verbatim as the override")
 	}
 	// ---- R17.9 the relay protocol is that of the transport actually used -----------------------------------------
